@@ -110,7 +110,11 @@ def check_int(ctx, n, alpha, seen, klass):
 def check_string(ctx, s, alpha, klass):
     case = {"kind": "str", "value": s, "class": klass}
     expected = model_valid(s, alpha)
-    for fname in ("uuid_from_short_str", "uuid_from_str"):
+    # (the same string goes through both entry points, in both orders: results must not be remembered
+    # across functions or calls)
+    order = ("uuid_from_short_str", "uuid_from_str", "uuid_from_short_str") if len(s) % 2 else (
+        "uuid_from_str", "uuid_from_short_str", "uuid_from_str")
+    for fname in order:
         exp = expected
         if fname == "uuid_from_short_str" and not (len(s) == 22 and all(c in alpha for c in s)):
             exp = None  # canonical forms are not short strings
@@ -180,7 +184,13 @@ def one_case(ctx, rng, alpha, seen, i):
     else:  # near-canonical garbage and valid short strings near the top
         if rng.random() < 0.5:
             n = TOP - 1 - rng.getrandbits(rng.randint(0, 64))
-            check_string(ctx, model_encode(n, alpha), alpha, "valid_short")
+            s = model_encode(n, alpha)
+            check_string(ctx, s, alpha, "valid_short")
+            # ... and then a string that differs from it only in the case of one letter
+            pos = [k for k, ch in enumerate(s) if ch.swapcase() != ch]
+            if pos:
+                k = rng.choice(pos)
+                check_string(ctx, s[:k] + s[k].swapcase() + s[k + 1:], alpha, "case_variant")
         else:
             canon = list(str(uuid.UUID(int=rng.getrandbits(128))))
             pos = rng.randrange(len(canon))
